@@ -87,8 +87,9 @@ MUTANTS = [
     m("c12-field-copy-drops-unit", ["C12", "C13"], F, "                dtype=self.dtype,\n                unit=self.unit,\n                valid=valid,", "                dtype=self.dtype,\n                valid=valid,"),
     m("c12-k-float-accepted", ["C12"], R, "if not isinstance(k, int):", "if not isinstance(k, (int, float)):"),
     m("c13-scale-inplace-raw", ["C13"], R, "            self._pmin = np.minimum(pmin, pmax)\n            self._pmax = np.maximum(pmin, pmax)\n", "            self._pmin = pmin\n            self._pmax = pmax\n"),
-    m("c13-scale-inplace-zero", ["C13"], R, "            if not np.all(pmax - pmin):\n", "            if False:\n"),
-    m("c13-translate-one-corner", ["C13"], R, "self._pmax = np.add(self.pmax, vector)", "self._pmax = np.add(self.pmax, 0)"),
+    m("c13-scale-inplace-zero", ["C13"], R, "            if not np.all(pmax - pmin):\n", "            if False:\n",
+      anchor="def scale(self, factor, reference_point=None, inplace=False):"),
+    m("c13-translate-one-corner", ["C13"], R, "pmax = np.add(self.pmax, vector)", "pmax = np.add(self.pmax, 0)"),
     m("c13-scale-about-pmin", ["C13"], R, "pmin = reference_point - (reference_point - self.pmin) * factor", "pmin = reference_point - (reference_point - self.pmin) / factor"),
     m("c13-mesh-scale-sub-own-centre", ["C13"], M, "sr.scale(factor, inplace=True, reference_point=sr_ref)", "sr.scale(factor, inplace=True, reference_point=reference_point)"),
     m("c13-mesh-translate-skip-subregions", ["C13"], M, "                sr.translate(vector, inplace=True)\n", "                sr.translate(vector)\n"),
@@ -96,8 +97,18 @@ MUTANTS = [
     m("c13-foreign-writer", ["C13"], M, "        self.bc = bc\n\n        self.subregions = subregions\n", "        self.bc = bc\n\n        self.subregions = subregions\n        self.region._pmin = self.region._pmin * 1\n"),
     m("c13-n-not-validated", ["C13"], M, "            elif not all(i > 0 for i in n):\n                raise ValueError(\"The values of n must be positive integers.\")\n", ""),
     m("c13-region-zero-edge", ["C13"], R, "        if not np.all(self.edges):\n", "        if False:\n"),
-    m("c13-inplace-returns-copy", ["C13"], R, "            self._pmin = np.add(self.pmin, vector)\n            self._pmax = np.add(self.pmax, vector)\n            return self\n",
-      "            self._pmin = np.add(self.pmin, vector)\n            self._pmax = np.add(self.pmax, vector)\n            return self.__class__(p1=self.pmin, p2=self.pmax)\n"),
+    m("c13-inplace-returns-copy", ["C13"], R, "            self._pmin = pmin\n            self._pmax = pmax\n            return self\n",
+      "            self._pmin = pmin\n            self._pmax = pmax\n            return self.__class__(p1=self.pmin, p2=self.pmax)\n",
+      anchor="def translate(self, vector, inplace=False):"),
+    # pre-repair forms of AF20 (a far-away translation / rotation centre absorbs the extent; the copying form refuses)
+    m("c13-translate-inplace-degenerate", ["C13"], R, "            if not np.all(pmax - pmin):\n", "            if False:\n",
+      anchor="def translate(self, vector, inplace=False):"),
+    m("c13-translate-inplace-nominal-test", ["C13"], R, "            if not np.all(pmax - pmin):\n", "            if not np.all(self.edges):\n",
+      anchor="def translate(self, vector, inplace=False):"),
+    m("c13-rotate-inplace-degenerate", ["C13"], R, "            if not np.all(p2 - p1):\n", "            if False:\n"),
+    m("c13-rotate-inplace-test-after-store", ["C13"], R,
+      "            self._pmin = np.minimum(p1, p2)\n            self._pmax = np.maximum(p1, p2)\n            self.units = units\n            return self\n",
+      "            self._pmin = np.minimum(p1, p2)\n            self._pmax = np.maximum(p1, p2)\n            self.units = units\n            if not np.all(p2 - p1):\n                raise ValueError('zero edge')\n            return self\n"),
 ]
 
 MUTANTS += [
